@@ -3,7 +3,7 @@
        if method not in ("threshold", "clonal", "none"): raise ValueError(...)
 
    The test is regenerated from the Python source on every run (Gen/FnCallGuards.v fn_method_rejected; that it is the
-   first statement and guards a ValueError is checked on the syntax tree by tools/fnspecs/call_rows.py).  Here: the
+   first statement and guards a ValueError is checked on the syntax tree by tools/fnspecs/z_call_rows.py).  Here: the
    methods do_call accepts are exactly the three values of Model/Baf.v call_method -- the methods do_call_row /
    do_call_model are defined for --, under the names the entry point decodes (Entries/C02.v method_of, which answers
    "ValueError" for every other name) and the dispatch compares with (C01_source_dispatch, C02_source_finish). *)
